@@ -25,6 +25,7 @@ import (
 const modPath = "github.com/boz/kcache"
 
 type Prog struct {
+	rfpMemo map[*ssa.Function]map[*ssa.Parameter]*Term
 	Dir   string
 	Fset  *token.FileSet
 	Pkgs  []*packages.Package // repository packages, sorted by path
@@ -186,12 +187,23 @@ func (p *Prog) Func(rel, name string) *ssa.Function {
 			return nil
 		}
 		T := t.Type()
-		fn = p.SSA.LookupMethod(types.NewPointer(T), sp.Pkg, mn)
-		if fn == nil {
+		hasMethod := func(t types.Type) bool {
+			return p.SSA.MethodSets.MethodSet(t).Lookup(sp.Pkg, mn) != nil
+		}
+		if hasMethod(types.NewPointer(T)) {
+			fn = p.SSA.LookupMethod(types.NewPointer(T), sp.Pkg, mn)
+		}
+		if fn == nil && hasMethod(T) {
 			fn = p.SSA.LookupMethod(T, sp.Pkg, mn)
 		}
+		if fn == nil {
+			// the method may have been turned into a plain function taking the receiver first
+			if pf := sp.Func(mn); pf != nil && recvLikeType(pf) == tn {
+				fn = pf
+			}
+		}
 		// LookupMethod on *T may return a wrapper for a value method
-		if fn != nil && fn.Synthetic != "" {
+		if fn != nil && fn.Synthetic != "" && hasMethod(T) {
 			if f2 := p.SSA.LookupMethod(T, sp.Pkg, mn); f2 != nil && f2.Synthetic == "" {
 				fn = f2
 			}
@@ -271,6 +283,34 @@ func (p *Prog) repoRels() []string {
 	return out
 }
 
+// recvLikeType: for a plain function of a repository package whose first parameter is (a pointer
+// to) a struct type T of the same package, where T has no method of that name and the function is
+// not one of the tree's constructors, the name of T.  Such a function is named "T.f" like the
+// method it is interchangeable with, so that method<->function refactorings keep every anchor.
+func recvLikeType(f *ssa.Function) string {
+	if f == nil || f.Pkg == nil || f.Parent() != nil || f.Signature.Recv() != nil || f.Signature.Params().Len() == 0 || anchorCtors[f.Name()] {
+		return ""
+	}
+	if !strings.HasPrefix(f.Pkg.Pkg.Path(), modPath) {
+		return ""
+	}
+	t := f.Signature.Params().At(0).Type()
+	if pt, ok := t.(*types.Pointer); ok {
+		t = pt.Elem()
+	}
+	n, ok := t.(*types.Named)
+	if !ok || n.Obj().Pkg() != f.Pkg.Pkg {
+		return ""
+	}
+	if _, ok := n.Underlying().(*types.Struct); !ok {
+		return ""
+	}
+	if obj, _, _ := types.LookupFieldOrMethod(types.NewPointer(n), true, f.Pkg.Pkg, f.Name()); obj != nil {
+		return ""
+	}
+	return n.Obj().Name()
+}
+
 // fnName gives a short stable name: "T.method", "func", "T.method$1",
 // prefixed with the module-relative package for non-root packages.
 func fnName(f *ssa.Function) string {
@@ -286,6 +326,11 @@ func fnName(f *ssa.Function) string {
 		}
 		suffix := strings.TrimPrefix(f.Name(), root.Name())
 		return fnName(root) + suffix
+	}
+	if f.Signature.Recv() == nil {
+		if tn := recvLikeType(f); tn != "" {
+			name = tn + "." + f.Name()
+		}
 	}
 	if recv := f.Signature.Recv(); recv != nil {
 		t := recv.Type()
